@@ -1,7 +1,7 @@
 (* Model/Dispatch.v — one integer-list interface over all executable models,
    used by the extracted OCaml driver and by the in-kernel cases.v sample. *)
 From Coq Require Import ZArith List Bool.
-From Verif Require Import Base.Word64 Model.Sketch Model.Expiry Model.Wheel Model.Policy Model.Store Model.Ring Model.Flight Model.Persist Model.Shard Model.RBMutex Model.Bloom Model.DList Model.Flags Model.Counter Model.CloseFine.
+From Verif Require Import Base.Word64 Model.Sketch Model.Expiry Model.Wheel Model.Policy Model.Store Model.Ring Model.Flight Model.Persist Model.Shard Model.RBMutex Model.Bloom Model.DList Model.Flags Model.Counter Model.CloseFine Model.Climber.
 Import ListNotations.
 Open Scope Z_scope.
 
@@ -21,9 +21,10 @@ Inductive mstate :=
 | MFlags (f : flags)
 | MCounter (c : counter)
 | MCloseFine (c : cfine)
+| MClimber (c : climber)
 | MNone.
 
-(* model ids: 1 sketch, 2 expiry arithmetic, 3 timer wheel, 4 eviction policy, 5 store pipeline, 6 read ring, 7 singleflight, 8 persistence, 9 key addressing (shards), 10 reader-biased mutex, 11 doorkeeper, 12 intrusive list, 13 packed policy flags, 14 striped counter, 15 Close shard by shard *)
+(* model ids: 1 sketch, 2 expiry arithmetic, 3 timer wheel, 4 eviction policy, 5 store pipeline, 6 read ring, 7 singleflight, 8 persistence, 9 key addressing (shards), 10 reader-biased mutex, 11 doorkeeper, 12 intrusive list, 13 packed policy flags, 14 striped counter, 15 Close shard by shard, 16 hill climber (float32) *)
 Definition m_init (model : Z) (cfg : list Z) : mstate :=
   match model with
   | 1 => MSketch (sk_init cfg)
@@ -41,6 +42,7 @@ Definition m_init (model : Z) (cfg : list Z) : mstate :=
   | 13 => MFlags (flg_init cfg)
   | 14 => MCounter (cnt_init cfg)
   | 15 => MCloseFine (cfi_init cfg)
+  | 16 => MClimber (clb_init cfg)
   | _ => MNone
   end.
 
@@ -61,6 +63,7 @@ Definition m_step (m : mstate) (op : list Z) : mstate * list Z :=
   | MFlags f => let '(f', o) := flg_step f op in (MFlags f', o)
   | MCounter c => let '(c', o) := cnt_step c op in (MCounter c', o)
   | MCloseFine c => let '(c', o) := cfi_step c op in (MCloseFine c', o)
+  | MClimber c => let '(c', o) := clb_step c op in (MClimber c', o)
   | MNone => (MNone, [-999])
   end.
 
